@@ -6,6 +6,8 @@
  * except the seeded stream served through getrandom(). fd 2 is never touched. Every intercepted
  * call and its simulated result is appended to a trace file through the raw system call.
  *
+ *   FMLSIM_ONLY=<suffix>     be completely inert (no plan, no trace, no clock, real entropy) in any process whose executable path
+ *                            does not end with <suffix>: the wrapper script's bash and its helpers are not the system under test
  *   FMLSIM_SEED=<u64>        seed of the getrandom() byte stream (controls std RandomState)
  *   FMLSIM_TRACE=<path>      trace file (optional)
  *   FMLSIM_CLOCK=<base_ns>:<step_ns>[;<n>:<delta_ns>]...   scripted CLOCK_REALTIME: reading k returns
@@ -55,6 +57,7 @@ static long clock_reads = 0;
 static struct { long n; int64_t delta; } jumps[MAX_JUMPS];
 static int jump_len = 0;
 static int initialised = 0;
+static int inert = 0;
 
 static uint64_t splitmix(void) {
     uint64_t z = (rnd_state += 0x9E3779B97F4A7C15ull);
@@ -86,6 +89,12 @@ static void init(void) {
     if (initialised) return;
     initialised = 1;
     const char *s;
+    if ((s = getenv("FMLSIM_ONLY")) && *s) {
+        char exe[4096];
+        ssize_t n = readlink("/proc/self/exe", exe, sizeof exe - 1);
+        size_t want = strlen(s);
+        if (n < 0 || (size_t)n < want || memcmp(exe + n - want, s, want) != 0) { inert = 1; return; }
+    }
     if ((s = getenv("FMLSIM_SEED"))) rnd_state ^= strtoull(s, NULL, 10) * 0x2545F4914F6CDD1Dull;
     if ((s = getenv("FMLSIM_BUDGET"))) budget = strtol(s, NULL, 10);
     if ((s = getenv("FMLSIM_CPU"))) {
@@ -193,6 +202,7 @@ static int over_budget(void) {
 
 ssize_t write(int fd, const void *buf, size_t len) {
     init();
+    if (inert) return syscall(SYS_write, fd, buf, len);
     if (fd == 2 || fd == trace_fd || fd < 1) return syscall(SYS_write, fd, buf, len);
     int c = fd == 1 ? 0 : 1;
     long n = counter[c]++;
@@ -207,6 +217,7 @@ ssize_t write(int fd, const void *buf, size_t len) {
 
 ssize_t read(int fd, void *buf, size_t len) {
     init();
+    if (inert) return syscall(SYS_read, fd, buf, len);
     if (fd == 1 || fd == 2 || fd == trace_fd || fd < 0) return syscall(SYS_read, fd, buf, len);
     int c = fd == 0 ? 2 : 3;
     long n = counter[c]++;
@@ -220,6 +231,8 @@ ssize_t read(int fd, void *buf, size_t len) {
 }
 
 ssize_t writev(int fd, const struct iovec *iov, int iovcnt) {
+    init();
+    if (inert) return syscall(SYS_writev, fd, iov, iovcnt);
     /* fold onto write(): only the first non-empty buffer is offered, which the contract allows */
     for (int i = 0; i < iovcnt; i++)
         if (iov[i].iov_len > 0) return write(fd, iov[i].iov_base, iov[i].iov_len);
@@ -227,6 +240,8 @@ ssize_t writev(int fd, const struct iovec *iov, int iovcnt) {
 }
 
 ssize_t readv(int fd, const struct iovec *iov, int iovcnt) {
+    init();
+    if (inert) return syscall(SYS_readv, fd, iov, iovcnt);
     for (int i = 0; i < iovcnt; i++)
         if (iov[i].iov_len > 0) return read(fd, iov[i].iov_base, iov[i].iov_len);
     return 0;
@@ -234,6 +249,7 @@ ssize_t readv(int fd, const struct iovec *iov, int iovcnt) {
 
 ssize_t getrandom(void *buf, size_t len, unsigned int flags) {
     init();
+    if (inert) return syscall(SYS_getrandom, buf, len, flags);
     (void)flags;
     unsigned char *p = buf;
     for (size_t i = 0; i < len; i += 8) {
@@ -247,6 +263,8 @@ ssize_t getrandom(void *buf, size_t len, unsigned int flags) {
 
 int getentropy(void *buf, size_t len) {
     if (len > 256) { errno = EIO; return -1; }
+    init();
+    if (inert) return syscall(SYS_getrandom, buf, len, 0) == (long)len ? 0 : -1;
     getrandom(buf, len, 0);
     return 0;
 }
@@ -263,7 +281,7 @@ static int64_t scripted_now(void) {
 
 int clock_gettime(clockid_t id, struct timespec *ts) {
     init();
-    if (have_clock && id == CLOCK_REALTIME) {
+    if (!inert && have_clock && id == CLOCK_REALTIME) {
         int64_t t = scripted_now();
         ts->tv_sec = t / 1000000000ll;
         ts->tv_nsec = t % 1000000000ll;
@@ -275,7 +293,7 @@ int clock_gettime(clockid_t id, struct timespec *ts) {
 int gettimeofday(struct timeval *tv, void *tz) {
     init();
     (void)tz;
-    if (have_clock) {
+    if (!inert && have_clock) {
         int64_t t = scripted_now();
         if (tv) { tv->tv_sec = t / 1000000000ll; tv->tv_usec = (t % 1000000000ll) / 1000; }
         return 0;
@@ -285,7 +303,7 @@ int gettimeofday(struct timeval *tv, void *tz) {
 
 time_t time(time_t *out) {
     init();
-    if (have_clock) {
+    if (!inert && have_clock) {
         time_t t = (time_t)(scripted_now() / 1000000000ll);
         if (out) *out = t;
         return t;
